@@ -224,6 +224,7 @@ func Graph(r *mon.Rng, maxTypes int) *model.Schema {
 			if r.Bool() {
 				return keyDiamondMotif(r)
 			}
+			return apUnionMotif(r)
 		}
 	}
 	g := &graphGen{r: r, s: &model.Schema{}}
@@ -293,9 +294,9 @@ func Graph(r *mon.Rng, maxTypes int) *model.Schema {
 		case "keystring":
 			switch r.Intn(7) {
 			case 3: // exactly one key
-				t = &model.TypeDef{Name: tname(i), Root: model.Str("only"+strconv.Itoa(i)).With(model.RBool("const", true))}
+				t = &model.TypeDef{Name: tname(i), Root: model.Str("only" + strconv.Itoa(i)).With(model.RBool("const", true))}
 			case 4: // a format
-				t = &model.TypeDef{Name: tname(i), Root: model.Str("k"+strconv.Itoa(i)+"@b.co").With(model.RStr("type", "email"))}
+				t = &model.TypeDef{Name: tname(i), Root: model.Str("k" + strconv.Itoa(i) + "@b.co").With(model.RStr("type", "email"))}
 			case 5, 6: // an alias / a union of key-string types declared before
 				if ks := g.stringTypeIdx(i); len(ks) > 0 {
 					a, b := tname(mon.Pick(r, ks)), tname(mon.Pick(r, ks))
@@ -571,6 +572,38 @@ func keyDiamondMotif(r *mon.Rng) *model.Schema {
 	s.Root = model.Obj(model.PShort(key, val), model.P("total", model.Int("2")))
 	if r.Chance(1, 3) {
 		s.Root = model.Obj(model.P("m", s.Root))
+	}
+	s.Legal = true
+	return s
+}
+
+// apUnionMotif: a union of object types that differ (only, or mostly) in the kind their
+// additionalProperties rule admits for undeclared keys: a document is told apart by the VALUE of
+// an undeclared key, which fails one alternative and suits another.
+func apUnionMotif(r *mon.Rng) *model.Schema {
+	kinds := []string{"array", "object", "string", "integer", "boolean", "null", "float"}
+	mon.Shuffle(r, kinds)
+	n := r.Range(2, 3)
+	s := &model.Schema{}
+	var names []string
+	for i := 0; i < n; i++ {
+		o := model.Obj()
+		if r.Chance(1, 3) {
+			o = model.Obj(model.P("id", model.Int("1").With(model.RBool("optional", true))))
+		}
+		o.Rules = append(o.Rules, model.RStr("additionalProperties", kinds[i]))
+		name := "@t" + strconv.Itoa(i)
+		s.Types = append(s.Types, &model.TypeDef{Name: name, Root: o})
+		names = append(names, name)
+	}
+	u := model.Ref(names...)
+	switch r.Intn(3) {
+	case 0:
+		s.Root = u
+	case 1:
+		s.Root = model.Obj(model.P("u", u), model.P("n", model.Int("1")))
+	default:
+		s.Root = model.Arr(u)
 	}
 	s.Legal = true
 	return s
